@@ -9,6 +9,7 @@ for line in open(os.path.join(ROOT, ".work/seedsweep.log"), errors="replace"):
     if m:
         sid, chk, rc, rest = m.group(1), m.group(2), int(m.group(3)), m.group(4)
         sigs = re.findall(r"signature=([^:\s]+)", rest)
+        sweep[sid] = [x for x in sweep.get(sid, []) if x["check"] != chk]
         sweep.setdefault(sid, []).append(dict(check=chk, command="lib/seedrun.sh %s %s  (= VERIF_REPO_DIR=<scratch worktree with the patch> ./check %s quick)" % (sid, chk, chk),
                                               exit_code=rc, signatures=sigs, note=("inconclusive: " + rest[:200]) if rc == 2 else ""))
     m = re.match(r"seed (C\d+-[ab]): patch does not apply", line)
@@ -25,7 +26,6 @@ NEUTRALISED = {
     "C20-b": "same edit as C15-a (message/builder.go AddBlock); neutralised by fix b69a6ad; demonstration passes with the change on HEAD.",
     "C10-a": "neutralised by fix c220a91 (messages of another peer that carry the victim's request id never reach newRequest any more); its demonstration now stops in its own set-up ('peer B's refusal never went out') with and without the change. Detected by C10 before that fix.",
     "C10-b": "neutralised by fix c220a91 (a Cancel from another peer is dropped before abortRequest); demonstration passes with the change on HEAD. Detected by C10 before that fix.",
-    "C09-a": "its C09 effect is neutralised by fix 55f5b00 (the ownership test before the hooks no longer goes through the function the change rewires); what is left on HEAD is that PeerState lists the re-used id under the old peer (the demonstration fails on that assertion), which is outside C09. Detected by C09 (id-reuse stage) before that fix.",
 }
 rows = []
 for sid in sorted(os.listdir(os.path.join(ROOT, "seeded"))):
